@@ -7,7 +7,12 @@
    it waits and the state is untouched (C12_waits_when_short, C12_failed_evaluation_changes_nothing), so waiting never
    consumes capacity; validity on slot levels is count < slots (C12_slot_validity).
    C12_valid_iff_fits: valid <-> fits the free capacity.  C12_quiescent_partial: a wake-up round without grant leaves
-   every waiter ungrantable in the final state.  C12_eventually (liveness over whole histories) is not proved.
+   every waiter ungrantable in the final state.  C12_quiescent / C12_quiescent_stacked: rounds with grants.
+   C12_granted_on_release_partial: progress of a round.  C12_eventually_partial + C12_phases_measure: NOT a liveness theorem
+   about the implementation — an idle-point SAFETY statement (at an idle point reached by phases "terminal notification +
+   full round" no fitting request is still pending) plus the measure that bounds the number of phases; that every
+   fireable/running job is eventually notified and that every notification is followed by a full round are ASSUMED (the
+   shape of [phases_seq]), the second being what asyncio's notify_all provides and what the oracle watches on real runs.
    Refuted: C12_rollback_blocks_refuted (known finding: a rolled-back job keeps the inner slot of its step). *)
 From Coq Require Import List Bool ZArith NArith Lia.
 From SF Require Import Base.Str Hardware.Model Hardware.Proofs Sched.Model Sched.Proofs Sched.History Sched.Quiesce Sched.Eventually Sched.Stacked Sched.StackedHist Sched.StackedQuiesce Sched.Witness Sched.Examples.
@@ -168,8 +173,10 @@ Proof. exact wake_round_granted_in. Qed.
    after at most nact st + |W| terminal notifications nobody is fireable/running — under the fairness assumption that
    every fireable/running job is eventually notified, the continuation reaches such an idle point — and pending requests
    only leave W.
-   C12_eventually_partial: at an idle point reached by at least one phase of a conformant continuation, NO request for a
-   location l with declared hardware whose requirement fits l's total capacity is still pending: it has been granted.
+   C12_eventually_partial (the name follows the design; what it states is idle-point safety under the assumed fairness
+   built into [phases_seq], not liveness of the implementation): at an idle point reached by at least one phase of a
+   conformant continuation, NO request for a location l with declared hardware whose requirement fits l's total capacity
+   is still pending: it has been granted.
    Residue assumption, explicit: "fits" is cores rq <= cores cap, memory likewise, and for every mount point of rq:
    measured residue (what du reported for released reservations so far, at any prefix of the history) + size <= capacity;
    by C11_release the idle ledger is exactly 0 / 0 / that residue.
